@@ -155,6 +155,8 @@ class Reader:
                     )
                 self.meta["fileTimeSecs"] = ftsec
         else:
+            # the file may have grown (acquisition in progress) or been replaced since construction
+            self.nbytes = self.file_bin.stat().st_size
             if self.nc * self.ns * self.dtype.itemsize != self.nbytes:
                 # only complete sample frames count: an interrupted write leaves a partial last frame
                 ftsec = (
